@@ -93,7 +93,7 @@ def generate(seed, tier):
             ops.append(solver.gen_owner_op(rng, ref, d, box, x0, t0, min(tmax, 10.0)))
             batch = "fault_injecting"
         ops.append({"op": "fit", "id": "L1", "start": start, "lb": lb, "ub": ub, "at_truth": at_truth,
-                    "truth": [theta[i] for i in bidx]})
+                    "truth": [theta[i] for i in bidx], "plain_output": rng.random() < 0.5})
         return {"engine": "solver", "problem": name, "model": model, "theta": theta, "x0": x0, "t0": t0, "env": env,
                 "ops": ops, "batch": batch, "box": box}
     raise core.HarnessError("no C18 case")
